@@ -6,13 +6,18 @@ def dispatch : P String := do
   let comp ← tok
   let body ← match comp with
     | "repair" => compRepair
+    | "dem" => compDem
+    | "dex" => compDex
+    | "mask" => compMask
+    | "des" => compDes
+    | "variant" => compVariant
     | _ => pure s!"err unknown component {comp}"
   return s!"{seq} {comp} {body}"
 
 partial def loop (h : IO.FS.Stream) (out : IO.FS.Stream) : IO Unit := do
   let line ← h.getLine
   if line.isEmpty then return ()
-  let l := line.trimRight
+  let l := line.trimAsciiEnd.toString
   if l.isEmpty then loop h out else
   match Proto.run dispatch l with
   | .ok s => out.putStrLn s
